@@ -306,7 +306,7 @@ def build_ml(name, srcs, packages=()):
     for p in paths:
         if not os.path.exists(p):
             raise BuildError("missing OCaml source %s (extraction failed?)" % p)
-    key = file_hash(paths)[:12]
+    key = file_hash(paths + glob.glob(os.path.join(ROOT, "ocaml", "*.inc")))[:12]
     d = os.path.join(CACHE, "ml", name + "-" + key)
     out = os.path.join(d, name)
     with Lock("ml-" + name):
@@ -318,7 +318,13 @@ def build_ml(name, srcs, packages=()):
         local = []
         for p in paths:
             q = os.path.join(d, os.path.basename(p))
-            shutil.copy(p, q)
+            txt = open(p).read()
+
+            def inc(m):
+                return open(os.path.join(ROOT, "ocaml", m.group(1))).read()
+            txt = re.sub(r"\(\*INCLUDE ([A-Za-z0-9_.]+)\*\)", inc, txt)
+            with open(q, "w") as f:
+                f.write(txt)
             mli = p[:-3] + ".mli"
             if os.path.exists(mli):
                 shutil.copy(mli, os.path.join(d, os.path.basename(mli)))
@@ -422,11 +428,22 @@ def parse_verdicts(text):
 # ------------------------------------------------------------------------------------------
 
 def known_findings(pid):
-    p = os.path.join(ROOT, "known_findings.json")
-    if not os.path.exists(p):
-        return []
-    data = json.load(open(p))
-    return [f for f in data.get("findings", []) if f.get("property") == pid and f.get("status") == "open"]
+    """open findings for a property: known_findings.json plus per-property fragments findings/*.json"""
+    out = []
+    files = [os.path.join(ROOT, "known_findings.json")] + sorted(glob.glob(os.path.join(ROOT, "findings", "*.json")))
+    seen = set()
+    for p in files:
+        if not os.path.exists(p):
+            continue
+        data = json.load(open(p))
+        for f in data.get("findings", []):
+            key = json.dumps(f, sort_keys=True)
+            if key in seen:
+                continue
+            seen.add(key)
+            if f.get("property") == pid and f.get("status") == "open":
+                out.append(f)
+    return out
 
 
 # ------------------------------------------------------------------------------------------
